@@ -172,7 +172,8 @@ void Server::Impl::onTcpReceived(const TcpServer::ConnToken &ct, Buffer &buff)
                 conn->close_index = conn->req_index;
                 LogDbg("mark close at %d", conn->close_index);
 
-                tcp_server_.shutdown(ct, SHUT_RD);
+                //! 注意：这里不能 shutdown(SHUT_RD)。否则下一次读会立即得到 EOF，连接随即被销毁，
+                //! 尚未回复（或尚未发完）的 Respond 就永远发不出去了。后续收到的数据由上面的 close_index 判断丢弃
             }
 
             auto sp_ctx = make_shared<Context>(wp_parent_, ct, conn->req_index++, req);
